@@ -20,6 +20,8 @@ fn main() {
     let cleared: Arc<Mutex<Vec<u64>>> = Arc::new(Mutex::new(vec![]));
     let snaps: Arc<Mutex<Vec<u64>>> = Arc::new(Mutex::new(vec![]));
     let mut pushed: Vec<u64> = vec![];
+    // values pushed by the setup (this, unscheduled, thread) before any other thread starts: the full tail block of the scenario
+    for k in 0..plan.inputs.get("prefill").copied().unwrap_or(0) { bucket.push(500 + k); pushed.push(500 + k); }
     let mut hs = vec![];
     let done_at: Arc<Mutex<Vec<(u64, u64)>>> = Arc::new(Mutex::new(vec![]));          // (value, tick at which its push had returned)
     let reads: Arc<Mutex<Vec<(u64, Vec<u64>)>>> = Arc::new(Mutex::new(vec![]));       // (tick at which the snapshot began, what it saw)
